@@ -51,6 +51,15 @@ TRUSTED_EXTRA = [
     "int -> str is stated in the theorem (Table.norm) and counted in the evidence, not reported as a failure",
 ]
 
+EXPLANATION = (
+    "Theorems over every record r (any sizes, NaN/inf patterns, optional Jacobian/labels/table): fromDict(dumpsLoads(toDict b r)) agrees "
+    "with r field by field and prints the same lines (C20_roundtrip, C20_str); replace_nan leaves no NaN in any value (C20_strict, "
+    "C20_strict_any); None sits exactly at the NaN positions and is mapped back, obj included (C20_none_to_nan); json.dumps(allow_nan=False) "
+    "succeeds iff no float is +-inf (C20_inf_partial; full-strength strictness is false: C20_inf_counterexample = known finding "
+    "C20:inf-not-strict-json); the pinned loader leaves obj=None (C20_old_obj_none). The model is tied to the real "
+    "to_dict/json/from_dict/__str__ by the correspondence on real solve results and synthetic objects; the search states the property "
+    "directly on the real code.")
+
 STRICT_INDEX = False
 MAIN = "JsonMain.lean"
 SOLVE_ALARM_S = 20
@@ -523,6 +532,7 @@ def solve_configs():
     C["slow"] = lambda rng: (_rosen, x0r(), dict(user_params=diag(rng, extra={"slow.max_slow_iters": int(rng.integers(1, 3)),
                                                                          "slow.thresh_for_slow": 1e10, "slow.history_for_slow": 1})))
     C["nan-at-k"] = lambda rng: (_faulty(_rosen, int(rng.integers(0, 12)), math.nan), x0r(), dict(maxfun=40, user_params=diag(rng)))
+    C["nan-from-start"] = lambda rng: (_faulty(_rosen, 0, math.nan), x0r(), dict(maxfun=int(rng.integers(3, 20)), user_params=diag(rng)))
     C["inf-at-k"] = lambda rng: (_faulty(_rosen, int(rng.integers(0, 8)), math.inf), x0r(), dict(maxfun=30, user_params=diag(rng)))
     C["overflow"] = lambda rng: (_faulty(_rosen, int(rng.integers(0, 8)), 1e200), x0r(), dict(maxfun=30, user_params=diag(rng)))
     C["m-threshold"] = lambda rng: (_linear(int(rng.choice([99, 100, 101])), 2, rng), np.zeros(2),
@@ -608,6 +618,30 @@ def gen_cases(dfols, ctx, suite, n_solve_rounds, n_synth, with_nonplain=False):
         yield {"kind": "record", "name": "synthetic:%d" % i, "record": rec}, build_from_record(dfols, rec)
 
 
+def readable_record(rec):
+    """the same record with floats written as Python reprs (for the human reading a replay file)"""
+    f = lambda t: repr(tok_fl(t))
+    out = dict(rec)
+    out["x"] = [f(t) for t in rec["x"]]
+    out["resid"] = [f(t) for t in rec["resid"]][:12] + (["... %d more" % (len(rec["resid"]) - 12)] if len(rec["resid"]) > 12 else [])
+    out["obj"] = f(rec["obj"])
+    if rec["jac"] is not None:
+        out["jac"] = [[f(t) for t in row] for row in rec["jac"][:6]] + (["... %d more rows" % (len(rec["jac"]) - 6)] if len(rec["jac"]) > 6 else [])
+    if rec["diag"] is not None:
+        out["diag"] = {"index": rec["diag"]["index"], "columns": [[n, [f(c["f"]) if isinstance(c, dict) else c for c in cells[:12]]]
+                                                                  for n, cells in rec["diag"]["columns"]]}
+    return out
+
+
+def replay_payload(origin, replace, sig):
+    rp = {"origin": origin, "replace_nan": replace, "signature": sig,
+          "how": "build the OptimResults named by origin (props/c20.py: rebuild), then r = OptimResults.from_dict(json.loads("
+                 "json.dumps(s.to_dict(replace_nan), allow_nan=False))) and compare r with s field by field and str(r) with str(s)"}
+    if origin["kind"] == "record":
+        rp["record_readable"] = readable_record(origin["record"])
+    return rp
+
+
 def rebuild(dfols, origin):
     if origin["kind"] == "record":
         return build_from_record(dfols, origin["record"])
@@ -683,10 +717,13 @@ def correspondence(ctx):
     dfols = core.import_dfols()
     lines, reals, owners = [], [], []
     feat, unenc, origins = {}, 0, 0
-    for origin, s in gen_cases(dfols, ctx, 20, ctx.scale(2, 10), ctx.scale(120, 2500)):
+    feat_real = {}
+    for origin, s in gen_cases(dfols, ctx, 20, ctx.scale(3, 10), ctx.scale(120, 2500)):
         origins += 1
         for tg in features(s):
             feat[tg] = feat.get(tg, 0) + 1
+            if origin["kind"] == "solve":
+                feat_real[tg] = feat_real.get(tg, 0) + 1
         for replace in (True, False):
             try:
                 line = encode_request(s, replace)
@@ -746,6 +783,7 @@ def correspondence(ctx):
     ctx.cov["correspondence_json"] = {"cases": origins, "protocol_lines": len(lines), "mismatching_lines": nmis,
                                       "matching_pinned_fromDictOld": pinned_like, "unencodable": unenc,
                                       "case_features": dict(sorted(feat.items())),
+                                      "case_features_real_solves_only": dict(sorted(feat_real.items())),
                                       "distinct_str_line_patterns": len(tagsets),
                                       "bytes_sent": sum(len(l) for l in lines)}
 
@@ -872,15 +910,18 @@ def check_property(dfols, s, replace, stats=None):
 def search(ctx):
     dfols = core.import_dfols()
     boost = getattr(ctx, "boost", 1)
-    stats, flags, feat = {}, {}, {}
+    stats, flags, feat, feat_real = {}, {}, {}, {}
     reported = set(f.signature for f in ctx.failures)
     counts = {}
     ncases = 0
     for origin, s in gen_cases(dfols, ctx, 2020 + (boost > 1), ctx.scale(3, 20) * boost, ctx.scale(400, 6000) * boost, with_nonplain=True):
         ncases += 1
-        flags[int(s.flag)] = flags.get(int(s.flag), 0) + 1
+        if origin["kind"] == "solve":
+            flags[int(s.flag)] = flags.get(int(s.flag), 0) + 1
         for tg in features(s):
             feat[tg] = feat.get(tg, 0) + 1
+            if origin["kind"] == "solve":
+                feat_real[tg] = feat_real.get(tg, 0) + 1
         for replace in (True, False):
             fails = check_property(dfols, s, replace, stats)
             ctx.seen(("c20search", origin["name"], origin.get("seed"), replace, repr(origin.get("record"))[:3000]))
@@ -888,10 +929,12 @@ def search(ctx):
                 counts[sig] = counts.get(sig, 0) + 1
                 if sig not in reported:
                     reported.add(sig)
-                    ctx.fail(sig, "%s [case %s, replace_nan=%s]" % (what, origin["name"], replace),
-                             {"origin": origin, "replace_nan": replace, "signature": sig})
-    ctx.cov["search_json"] = {"cases": ncases, "checks": 2 * ncases, "exit_flags": dict(sorted(flags.items())),
-                              "case_features": dict(sorted(feat.items())), "failures_by_signature": counts, **stats}
+                    ctx.fail(sig, "%s [case %s, replace_nan=%s]" % (what, origin["name"], replace), replay_payload(origin, replace, sig))
+    ctx.cov["search_json"] = {"cases": ncases, "checks": 2 * ncases, "exit_flags_reached_by_real_solves": dict(sorted(flags.items())),
+                              "exit_flags_synthetic_only": [f for f in (0, 1, 2, 3, 4, 5, -2, -3, -4) if f not in flags],
+                              "case_features": dict(sorted(feat.items())),
+                              "case_features_real_solves_only": dict(sorted(feat_real.items())),
+                              "failures_by_signature": counts, **stats}
 
 
 def replay(payload):
